@@ -53,6 +53,23 @@ func init() {
 				if err != nil {
 					panic("harness: AEAD construction failed: " + err.Error())
 				}
+				// siblings: further AEADs of OTHER shapes made from the same Block afterwards (and dropped). Objects derived from one
+				// parent are independent of each other: the one under test keeps its nonce and tag size and its behaviour
+				for _, sh := range [][2]int{{12, 12}, {16, 16}, {12, 16}, {13, 14}} {
+					if sh[0] == nlen && sh[1] == tlen {
+						continue
+					}
+					switch {
+					case st.Str("alg") == "ccm":
+						if sh[0] <= 13 && sh[1]%2 == 0 {
+							_, _ = gcipher.NewCCMWithNonceAndTagSize(b, sh[0], sh[1])
+						}
+					case sh[0] == 12:
+						_, _ = cipher.NewGCMWithTagSize(b, sh[1])
+					case sh[1] == 16:
+						_, _ = cipher.NewGCMWithNonceSize(b, sh[0])
+					}
+				}
 				if a.NonceSize() != nlen || a.Overhead() != tlen {
 					return &Mismatch{Step: i, Kind: "mismatch", Got: itoa(a.NonceSize()) + "/" + itoa(a.Overhead()), Exp: itoa(nlen) + "/" + itoa(tlen), Note: "NonceSize/Overhead"}
 				}
